@@ -240,6 +240,10 @@ pub struct Gen {
     invited: BTreeSet<usize>,
     /// let clients whose group is inactive keep attempting to send (C03)
     pub ex_members_send: bool,
+    /// hand events and other people's invitations to clients that never held the group (C03)
+    pub feed_outsiders: bool,
+    /// admins now and then publish group data larger than the storage layer accepts (C06, C08)
+    pub oversize_data: bool,
     /// hand already processed invitations over again (same wrapper id) now and then (C16)
     pub reprocess_welcomes: bool,
     /// announce encrypted media in messages (C17)
@@ -263,6 +267,8 @@ impl Gen {
             welcome_decided: BTreeSet::new(),
             invited: BTreeSet::new(),
             ex_members_send: false,
+            feed_outsiders: false,
+            oversize_data: false,
             reprocess_welcomes: false,
             media: false,
             hostile_hook: None,
@@ -298,8 +304,8 @@ impl Gen {
         if ev.kind == EvKind::Hostile {
             return w.gview(node, ev.g).is_some();
         }
-        // the node must hold the group (joined at some point)
-        let Some(gv) = w.gview(node, ev.g) else { return false };
+        // the node must hold the group (joined at some point), unless never-members are fed too
+        let Some(gv) = w.gview(node, ev.g) else { return self.feed_outsiders };
         let Some(rec) = &gv.record else { return false };
         match self.cfg.regime {
             Regime::Unrestricted => true,
@@ -321,7 +327,7 @@ impl Gen {
             .iter()
             .filter(|e| !w.delivered[node].contains_key(&e.origin))
             .filter(|e| !(e.creator == node && e.kind != EvKind::Commit && self.sched_skip_own_echo(e)))
-            .filter(|e| self.deliverable(w, node, e))
+            .filter(|e| w.gview(node, e.g).is_some() && self.deliverable(w, node, e))
             .map(|e| e.origin)
             .collect()
     }
@@ -338,6 +344,10 @@ impl Gen {
         if admin {
             cands.push((3, Op::UpdateData { g, variant: (self.sched.below(3)) as u8, arg: self.sched.below(1000) as u32 }));
             cands.push((1, Op::UpdateData { g, variant: 5 + self.sched.below(2) as u8, arg: 0 }));
+            if self.oversize_data {
+                // group data larger than the storage layer accepts (name > 255 bytes, description > 2000)
+                cands.push((1, Op::UpdateData { g, variant: 7 + self.sched.below(2) as u8, arg: self.sched.below(1000) as u32 }));
+            }
             if wts.rotate > 0 {
                 cands.push((wts.rotate, Op::UpdateData { g, variant: 4, arg: self.sched.below(1000) as u32 }));
             }
@@ -439,6 +449,28 @@ impl Gen {
                 let s = self.mk(w, pw.recipient, 0, Op::ProcessWelcome { w: r });
                 self.emitted += 1;
                 return Some(s);
+            }
+        }
+        if self.feed_outsiders && self.sched.chance(1, 8) {
+            // a client that never held the group is handed one of its events, or an invitation
+            // addressed to somebody else
+            let n = w.nodes.len();
+            if !w.welcomes.is_empty() && self.sched.chance(1, 4) {
+                let pw = w.welcomes[self.sched.below(w.welcomes.len() as u64) as usize].clone();
+                let node = self.sched.below(n as u64) as usize;
+                if node != pw.recipient && w.gview(node, pw.g).is_none() {
+                    let s = self.mk(w, node, 0, Op::ProcessWelcome { w: pw.origin });
+                    self.emitted += 1;
+                    return Some(s);
+                }
+            } else if !w.events.is_empty() {
+                let ev = w.events[self.sched.below(w.events.len() as u64) as usize].clone();
+                let node = self.sched.below(n as u64) as usize;
+                if w.gview(node, ev.g).is_none() && !w.delivered[node].contains_key(&ev.origin) {
+                    let s = self.mk(w, node, 0, Op::Deliver { ev: ev.origin });
+                    self.emitted += 1;
+                    return Some(s);
+                }
             }
         }
         for i in 0..w.welcomes.len() {
